@@ -33,6 +33,7 @@
 #include <string.h>
 #include <unistd.h>
 
+#include <functional>
 #include <memory>
 #include <string>
 #include <thread>
@@ -366,6 +367,10 @@ void vnum_watch(void*, const void*, uint64_t oldv, uint64_t newv) {
     fail("late-vertex", S->cycle_conc ? "concurrent-inject" : "no-external-input",
          "cycle %d: a vertex was invoked on a closure whose in-flight count had already dropped to zero (flush notified, wait() returns) — T%d", S->cycle, tid());
 }
+void act_watch(void*, const void*, uint64_t oldv, uint64_t newv) {
+  if (!S || !S->tracing) return;
+  if ((oldv & 0xff) == 0 && (newv & 0xff) == 1 && tid() != 0) probe("runtime_activation_off_main");
+}
 void dep_watch(void* ctx, const void*, uint64_t oldv, uint64_t newv) {
   if (!S || !S->tracing) return;
   DepTrace* t = (DepTrace*)ctx;
@@ -662,6 +667,7 @@ void run(const Plan& p) {
   }
   for (size_t vi = 0; vi < s.verts.size(); vi++) {
     auto& gv = s.graph->_vertexes[vi];
+    watch(&gv._activated, 1, act_watch, nullptr);
     for (size_t i = 0; i < s.verts[vi].deps.size(); i++) {
       s.dt[vi][i].n = 0; s.dt[vi][i].cond = s.verts[vi].deps[i].cond; s.dt[vi][i].target = s.verts[vi].deps[i].target;
       watch(&gv._dependencies[i]._waiting_num, 8, dep_watch, &s.dt[vi][i]);
@@ -682,76 +688,121 @@ void run(const Plan& p) {
   delete inplace;
 }
 
+// Targeted shape ("conditional diamond"): two sinks W1, W2 each depend on an
+// output of the same vertex V under a condition computed by P1 resp. P2. V is
+// not activated by run() itself but at run time, by whichever thread
+// establishes a condition — with P1 and P2 finishing on different threads both
+// activate V (and the data in between) at the same moment.
+int gen_diamond(Rng& r, std::function<void(int, int64_t, int64_t, int64_t)> add, int64_t& boolmask, int& ni) {
+  ni = (int)r.range(1, 2);
+  int k = ni;
+  auto vflags = [&](bool may_trivial) {
+    int64_t flags = may_trivial && r.chance(1, 8) ? 1 : 0;
+    for (int c = 0; c < MAXCYC; c++) if (r.chance(1, 2)) flags |= (int64_t)r.range(1, 3) << (1 + 2 * c);
+    return flags;
+  };
+  int same = (int)r.range(1, 25);
+  int c1 = k++, c2 = k++;
+  boolmask |= (1LL << c1) | (1LL << c2);
+  for (int v = 0; v < 2; v++) {
+    add(K_VERTEX, r.chance(2, 3) ? same : (int64_t)r.range(1, 40), v, vflags(false));
+    add(K_EMIT, 1, v, v == 0 ? c1 : c2);
+    if (r.chance(1, 2)) add(K_DEP, 1, v, (int64_t)r.below((uint64_t)ni));
+  }
+  int x = k++, y = r.chance(1, 2) ? k++ : -1;
+  add(K_VERTEX, (int64_t)r.range(1, 30), 2, vflags(true));
+  add(K_EMIT, 1, 2, x);
+  if (y >= 0) add(K_EMIT, 1, 2, y);
+  if (r.chance(2, 3)) add(K_DEP, 1, 2, (int64_t)r.below((uint64_t)ni));
+  for (int v = 3; v < 5; v++) {
+    add(K_VERTEX, (int64_t)r.range(1, 30), v, vflags(true));
+    add(K_EMIT, 1, v, k++);
+    int target = (v == 4 && y >= 0 && r.chance(2, 3)) ? y : x;
+    int cond = v == 3 ? c1 : c2;
+    add(K_DEP, 1, v, target | ((int64_t)(cond + 1) << 8) | ((int64_t)r.below(2) << 16) | ((int64_t)(r.chance(1, 4) ? 1 : 0) << 20));
+    if (r.chance(1, 3)) add(K_DEP, 1, v, (int64_t)r.below((uint64_t)ni));
+  }
+  return k;
+}
+
 void gen(Rng& r, Plan& p, const GenParams& gp) {
   gen_common(r, p, SB_HALF, false, 3000);
-  const int maxd = gp.thorough ? 12 : 10;
-  int nv = (int)r.range(1, 6);
-  int e[6];
-  int E = 0;
-  for (int v = 0; v < nv; v++) { e[v] = r.chance(1, 3) ? 2 : 1; E += e[v]; }
-  int ni = r.chance(1, 10) ? 0 : (int)r.range(1, 3);
-  while (E + ni > maxd) {
-    bool cut = false;
-    for (int v = nv - 1; v >= 0 && !cut; v--) if (e[v] == 2) { e[v] = 1; E--; cut = true; }
-    if (!cut) { if (ni > 1) ni--; else { nv--; E--; } }
-  }
-  if (E + ni < 3) ni = 3 - E;
-  int nd = E + ni;
-  int64_t boolmask = 0;
-  for (int k = 0; k < nd; k++) if (r.chance(2, 5)) boolmask |= 1LL << k;
-  p.cfg["nd"] = nd;
-  p.cfg["boolmask"] = boolmask;
-  int x = (int)r.below(20);
-  p.cfg["exec"] = x < 6 ? 0 : x < 13 ? 1 : 2;
-  p.cfg["workers"] = (int64_t)r.range(1, 3);
-  p.cfg["refuse_mask"] = gp.mode == 1 ? (int64_t)r.range(1, 63) : 0;
-  p.cfg["max_idle_jumps"] = 6000;
   int ncyc = (int)r.range(1, 3);
   p.threads.resize((size_t)ncyc + 1);
   int opid = 0;
   auto add = [&](int t, int kind, int64_t a, int64_t b, int64_t c) { Op o; o.kind = kind; o.a = a; o.b = b; o.c = c; o.id = opid++; p.threads[(size_t)t].push_back(o); };
-  int base = ni;
-  for (int v = 0; v < nv; v++) {
-    int64_t flags = r.chance(3, 20) ? 1 : 0;
-    for (int c = 0; c < MAXCYC; c++) if (r.chance(2, 5)) flags |= (int64_t)r.range(1, 3) << (1 + 2 * c);
-    add(0, K_VERTEX, (int64_t)r.range(1, 60), v, flags);
-    for (int k = 0; k < e[v]; k++) {
-      int64_t mask = 0;
-      for (int c = 0; c < MAXCYC; c++) if (r.chance(1, 7)) mask |= 1 << c;
-      add(0, K_EMIT, 1, v, (base + k) | (mask << 8));
+  int64_t boolmask = 0;
+  int ni = 0, nd = 0;
+  bool diamond = r.chance(1, 5);
+  if (diamond) {
+    nd = gen_diamond(r, [&](int kind, int64_t a, int64_t b, int64_t c) { add(0, kind, a, b, c); }, boolmask, ni);
+  } else {
+    const int maxd = gp.thorough ? 12 : 10;
+    int nv = (int)r.range(1, 6);
+    int e[6];
+    int E = 0;
+    for (int v = 0; v < nv; v++) { e[v] = r.chance(1, 3) ? 2 : 1; E += e[v]; }
+    ni = r.chance(1, 10) ? 0 : (int)r.range(1, 3);
+    while (E + ni > maxd) {
+      bool cut = false;
+      for (int v = nv - 1; v >= 0 && !cut; v--) if (e[v] == 2) { e[v] = 1; E--; cut = true; }
+      if (!cut) { if (ni > 1) ni--; else { nv--; E--; } }
     }
-    int ndeps = 0;
-    if (base > 0) { int y = (int)r.below(20); ndeps = y < 3 ? 0 : y < 10 ? 1 : y < 16 ? 2 : 3; }
-    for (int i = 0; i < ndeps; i++) {
-      int target = r.chance(3, 5) ? (int)r.range(std::max(0, base - 3), base - 1) : (int)r.below((uint64_t)base);
-      int cond = -1;
-      if (base > 1 && r.chance(9, 20)) {
-        std::vector<int> bools, others;
-        for (int k = 0; k < base; k++) if (k != target) { ((boolmask >> k) & 1 ? bools : others).push_back(k); }
-        if (!bools.empty() && (others.empty() || r.chance(17, 20))) cond = bools[r.below(bools.size())];
-        else if (!others.empty()) cond = others[r.below(others.size())];
+    if (E + ni < 3) ni = 3 - E;
+    nd = E + ni;
+    for (int k = 0; k < nd; k++) if (r.chance(2, 5)) boolmask |= 1LL << k;
+    int base = ni;
+    for (int v = 0; v < nv; v++) {
+      int64_t flags = r.chance(3, 20) ? 1 : 0;
+      for (int c = 0; c < MAXCYC; c++) if (r.chance(2, 5)) flags |= (int64_t)r.range(1, 3) << (1 + 2 * c);
+      add(0, K_VERTEX, (int64_t)r.range(1, 60), v, flags);
+      for (int k = 0; k < e[v]; k++) {
+        int64_t mask = 0;
+        for (int c = 0; c < MAXCYC; c++) if (r.chance(1, 7)) mask |= 1 << c;
+        add(0, K_EMIT, 1, v, (base + k) | (mask << 8));
       }
-      int y = (int)r.below(25);
-      int level = y < 16 ? 0 : y < 23 ? 1 : 2;
-      add(0, K_DEP, 1, v, target | ((int64_t)(cond + 1) << 8) | ((int64_t)r.below(2) << 16) | ((int64_t)level << 20));
+      int ndeps = 0;
+      if (base > 0) { int y = (int)r.below(20); ndeps = y < 3 ? 0 : y < 10 ? 1 : y < 16 ? 2 : 3; }
+      for (int i = 0; i < ndeps; i++) {
+        int target = r.chance(3, 5) ? (int)r.range(std::max(0, base - 3), base - 1) : (int)r.below((uint64_t)base);
+        int cond = -1;
+        if (base > 1 && r.chance(9, 20)) {
+          std::vector<int> bools, others;
+          for (int k = 0; k < base; k++) if (k != target) { ((boolmask >> k) & 1 ? bools : others).push_back(k); }
+          if (!bools.empty() && (others.empty() || r.chance(17, 20))) cond = bools[r.below(bools.size())];
+          else if (!others.empty()) cond = others[r.below(others.size())];
+        }
+        int y = (int)r.below(25);
+        int level = y < 16 ? 0 : y < 23 ? 1 : 2;
+        add(0, K_DEP, 1, v, target | ((int64_t)(cond + 1) << 8) | ((int64_t)r.below(2) << 16) | ((int64_t)level << 20));
+      }
+      base += e[v];
     }
-    base += e[v];
   }
+  p.cfg["nd"] = nd;
+  p.cfg["boolmask"] = boolmask;
+  int x = (int)r.below(20);
+  p.cfg["exec"] = diamond ? (x < 2 ? 0 : x < 10 ? 1 : 2) : (x < 6 ? 0 : x < 13 ? 1 : 2);
+  p.cfg["workers"] = (int64_t)r.range(diamond ? 2 : 1, 3);
+  p.cfg["refuse_mask"] = gp.mode == 1 ? (int64_t)r.range(1, 63) : 0;
+  p.cfg["max_idle_jumps"] = 6000;
   for (int c = 0; c < ncyc; c++) {
     int t = c + 1;
     add(t, K_CYCLE, (int64_t)r.range(0, 30), 0, 0);
     bool conc_cycle = (gp.mode < 0 && r.chance(7, 20)) || (gp.mode == 2 && r.chance(4, 5));
     for (int k = 0; k < nd; k++) {
       bool input = k < ni;
-      if (input ? !r.chance(48, 50) : !r.chance(3, 50)) continue;
+      if (input ? !r.chance(48, 50) : !r.chance(diamond ? 1 : 3, 50)) continue;
       int64_t fl = r.chance(1, 9) ? 1 : 0;
       if (input && conc_cycle && r.chance(1, 2)) fl |= 2 | ((int64_t)r.range(0, 6) << 8);
       add(t, K_INJECT, (int64_t)r.range(1, 1 << 20), k, fl);
     }
     int nt = 0;
     bool none = r.chance(1, 40);
-    for (int k = 0; k < nd && !none; k++)
-      if (r.chance(k < ni ? 2 : 9, 25)) { add(t, K_TARGET, 1, k, 0); nt++; }
+    if (diamond && r.chance(4, 5)) { add(t, K_TARGET, 1, nd - 2, 0); add(t, K_TARGET, 1, nd - 1, 0); nt = 2; }
+    else
+      for (int k = 0; k < nd && !none; k++)
+        if (r.chance(k < ni ? 2 : 9, 25)) { add(t, K_TARGET, 1, k, 0); nt++; }
     if (nt == 0 && !none) add(t, K_TARGET, 1, (int64_t)r.range(ni < nd ? ni : 0, nd - 1), 0);
   }
 }
